@@ -123,6 +123,9 @@ func valuePool(r *rng.Rand, n *spec.Node) []any {
 	return out
 }
 
+// c17WholeAbsent: input class "the slice itself is absent"
+type c17WholeAbsent struct{}
+
 func c17Chain(c *core.Ctx) {
 	o := gen.DefaultOpts()
 	o.ModChains = true
@@ -159,6 +162,10 @@ func c17Chain(c *core.Ctx) {
 		bare := spec.Mod{Op: spec.MRequired}
 		seqs := [][]spec.Mod{{withOpts, bare}, {bare, withOpts}, {withOpts, {Op: spec.MOptional}, bare}, {withOpts, {Op: spec.MOptional}}, {bare, withOpts, bare}}
 		leaf.Mods = append(leaf.Mods, seqs[c.R.Intn(len(seqs))]...)
+		if n.Kind == spec.Slice && c.R.Bool() {
+			// the same on the slice node itself (its Required is a builder call like any other)
+			n.Mods = append(n.Mods, seqs[c.R.Intn(len(seqs))]...)
+		}
 	}
 	// every 4th chain ends in a PostTransform that returns a plain error: that issue belongs to the node, whatever options
 	// (IssuePath, IssueCode, Params, Message) the tests before it carry
@@ -188,11 +195,18 @@ func c17Chain(c *core.Ctx) {
 	}
 	inputs := []any{leaf.Witness, nil, "", "  "}
 	inputs = append(inputs, valuePool(c.R, leaf)...)
+	if n.Kind == spec.Slice {
+		inputs = append(inputs, c17WholeAbsent{}) // the slice itself is absent (nil in Parse, empty in Validate)
+	}
 	passSeen, failSeen := map[int]bool{}, map[int]bool{}
 	for _, in := range inputs {
 		for _, mode := range []ref.Mode{ref.Parse, ref.Validate} {
 			var data, val any
-			if mode == ref.Parse {
+			if _, whole := in.(c17WholeAbsent); whole {
+				if mode == ref.Validate {
+					val = []any{}
+				}
+			} else if mode == ref.Parse {
 				data = wrapIn(in)
 			} else {
 				// build a value of the schema's type around the leaf value
@@ -431,8 +445,58 @@ func c17Coercer(c *core.Ctx) {
 
 // ---------- (3) sharing differential ----------
 
+// c17AliasedPointers: one pointer schema object used at several places, validating a value in which the SAME pointer sits at
+// several of those places: every place is validated, exactly as with independent copies of the schema.
+func c17AliasedPointers(c *core.Ctx) bool {
+	type Addr struct{ City string }
+	type Order struct {
+		Billing  *Addr
+		Shipping *Addr
+		Others   []*Addr
+	}
+	mk := func() *z.PointerSchema { return z.Ptr(z.Struct(z.Schema{"city": z.String().Min(3)})) }
+	shared := mk()
+	one := z.Struct(z.Schema{"billing": shared, "shipping": shared, "others": z.Slice(shared)})
+	copies := z.Struct(z.Schema{"billing": mk(), "shipping": mk(), "others": z.Slice(mk())})
+	a, b := &Addr{City: "NY"}, &Addr{City: "Paris"}
+	var v Order
+	switch c.R.Intn(4) {
+	case 0:
+		v = Order{Billing: a, Shipping: a}
+	case 1:
+		v = Order{Billing: a, Shipping: b, Others: []*Addr{a, a, b}}
+	case 2:
+		v = Order{Billing: b, Shipping: b, Others: []*Addr{a, b, a}}
+	default:
+		v = Order{Others: []*Addr{a, a, a}}
+	}
+	keys := func(m z.ZogIssueMap) string {
+		var ks []string
+		for k, l := range m {
+			if k != "$first" {
+				ks = append(ks, fmt.Sprintf("%s x%d", k, len(l)))
+			}
+		}
+		sort.Strings(ks)
+		return strings.Join(ks, ", ")
+	}
+	v1, v2 := v, v
+	got, want := keys(one.Validate(&v1)), keys(copies.Validate(&v2))
+	c.Eval(2)
+	if got != want {
+		c.Violation("shared-node-differs-from-independent-copies|aliased-pointers", map[string]any{"schema": "p := z.Ptr(z.Struct{city: String().Min(3)}); z.Struct{billing: p, shipping: p, others: z.Slice(p)}",
+			"value": fmt.Sprintf("billing=%p shipping=%p others=%v (cities NY / Paris)", v.Billing, v.Shipping, v.Others), "issue_keys_with_the_shared_object": got, "issue_keys_with_independent_copies": want})
+		return false
+	}
+	c.Count("aliased_pointer_validations", 1)
+	return true
+}
+
 func c17Sharing(c *core.Ctx) {
 	r := c.R
+	if c.Case%10 == 5 && !c17AliasedPointers(c) {
+		return
+	}
 	if c.Case%20 == 2 {
 		if sig, det := sameNamedTypesCheck(c.R); sig != "" {
 			c.Violation(sig, det)
